@@ -230,12 +230,52 @@ pub fn run(cfg: &RunCfg, rep: &mut Report) {
         let p = PolGen::new(&mut rng, pcfg).gen(leaves, 0);
         let pstr = p.concrete(&nm);
         rep.eval();
-        let conc = match guarded(|| Concrete::<String>::from_str(&pstr)) {
-            Ok(Ok(c)) => c,
-            _ => {
-                rep.count("policy-rejected");
-                continue;
+        // One case in five: a conjunction / disjunction with 3..=5 children assembled through the
+        // enum variants (the parser only builds binary ones). The compiler may refuse it; what it
+        // returns has to keep every branch.
+        let mut api_built: Option<(Pol, String, Concrete<String>)> = None;
+        if i % 5 == 2 {
+            let n = 3 + rng.below(3);
+            let is_and = rng.chance(1, 3);
+            let mut kids: Vec<(usize, Pol)> = vec![];
+            for j in 0..n {
+                let key = Pol::Atom(Atom::Key(j));
+                let kid = match rng.below(5) {
+                    0 => Pol::And(vec![key, Pol::Atom(Atom::Older(100 + j as u32))]),
+                    1 => Pol::And(vec![key, Pol::Atom(Atom::Sha256(j % 2))]),
+                    _ => key,
+                };
+                kids.push((1 + rng.below(3), kid));
             }
+            let texts: Vec<String> = kids.iter().map(|(_, k)| k.concrete(&nm)).collect();
+            let parsed: Vec<Concrete<String>> = texts.iter().filter_map(|t| Concrete::<String>::from_str(t).ok()).collect();
+            if parsed.len() == n {
+                let (model, obj, shown) = if is_and {
+                    (
+                        Pol::And(kids.iter().map(|(_, k)| k.clone()).collect()),
+                        Concrete::And(parsed.iter().map(|c| std::sync::Arc::new(c.clone())).collect()),
+                        format!("Policy::And[{}] (built through the enum variant)", texts.join(", ")),
+                    )
+                } else {
+                    (
+                        Pol::Or(kids.clone()),
+                        Concrete::Or(kids.iter().zip(parsed.iter()).map(|((w, _), c)| (*w, std::sync::Arc::new(c.clone()))).collect()),
+                        format!("Policy::Or[{}] (built through the enum variant)", kids.iter().zip(texts.iter()).map(|((w, _), t)| format!("{}@{}", w, t)).collect::<Vec<_>>().join(", ")),
+                    )
+                };
+                rep.count("api-built-nary-policy");
+                api_built = Some((model, shown, obj));
+            }
+        }
+        let (p, pstr, conc) = match api_built {
+            Some(x) => x,
+            None => match guarded(|| Concrete::<String>::from_str(&pstr)) {
+                Ok(Ok(c)) => (p, pstr, c),
+                _ => {
+                    rep.count("policy-rejected");
+                    continue;
+                }
+            },
         };
         if rep.samples.len() < rep.max_samples && i % 53 == 0 {
             rep.sample(pstr.clone());
